@@ -385,7 +385,7 @@ theorem clearLowestN_succ' (n : Nat) (x : BitVec 64) :
 
 theorem advanceBy_spec (hb : Built R vs ef) (hs : EFSpec.Sorted vs) (hu : EFSpec.AllU32 vs)
     (hR : 0 < R) (h32 : 64 * ef.highBits.length ≤ 2 ^ 32)
-    (c : Cursor) (hc : CurInv vs ef c) (k : Nat) (hk : c.idx + k < 2 ^ 64) :
+    (c : Cursor) (hc : CurInv vs ef c) (k : Nat) :
     ∃ c', advanceBy R ef c k = some (c', vs[EFSpec.goto vs (c.idx + k)]?) ∧
       c'.idx = EFSpec.goto vs (c.idx + k) ∧ CurInv vs ef c' := by
   unfold advanceBy
@@ -401,8 +401,20 @@ theorem advanceBy_spec (hb : Built R vs ef) (hs : EFSpec.Sorted vs) (hu : EFSpec
   · subst k1
     rw [if_pos rfl]
     exact advanceOne_spec hb hs hu c hc
-  rw [if_neg k1, Nat.mod_eq_of_lt hk, hb.len]
+  rw [if_neg k1, hb.len]
   dsimp only
+  have hnb : vs.length ≤ 2 ^ 32 := by
+    have h1 := hb.count_high hs
+    have h2 : (allBits ef.highBits).count true ≤ (allBits ef.highBits).length := List.count_le_length
+    rw [allBits_length] at h2
+    omega
+  by_cases hk : c.idx + k < 2 ^ 64
+  case neg =>
+    rw [Nat.min_eq_right (by omega), if_pos (by omega)]
+    have : EFSpec.goto vs (c.idx + k) = vs.length := by unfold EFSpec.goto; rw [if_neg (by omega)]
+    rw [this, getElem?_length_self]
+    exact ⟨_, rfl, rfl, curInv_exhausted c⟩
+  rw [Nat.min_eq_left (by omega)]
   by_cases hi : c.idx + k ≥ vs.length
   · rw [if_pos hi]
     have : EFSpec.goto vs (c.idx + k) = vs.length := by unfold EFSpec.goto; rw [if_neg (by omega)]
